@@ -60,6 +60,10 @@ func NetConn(ctx context.Context, c *Conn, msgType MessageType) net.Conn {
 
 	nc.writeTimer = time.AfterFunc(math.MaxInt64, func() {
 		if !nc.writeMu.tryLock() {
+			if nc.deadlineReset(&nc.writeDeadline) {
+				// The active write started after the deadline was reset.
+				return
+			}
 			// If the lock cannot be acquired, then there is an
 			// active write goroutine and so we should cancel the context.
 			nc.writeCancel()
@@ -70,6 +74,10 @@ func NetConn(ctx context.Context, c *Conn, msgType MessageType) net.Conn {
 		}
 		defer nc.writeMu.unlock()
 
+		if nc.deadlineReset(&nc.writeDeadline) {
+			return
+		}
+
 		// Prevents future writes from writing until the deadline is reset.
 		atomic.StoreInt64(&nc.writeExpired, 1)
 	})
@@ -79,6 +87,10 @@ func NetConn(ctx context.Context, c *Conn, msgType MessageType) net.Conn {
 
 	nc.readTimer = time.AfterFunc(math.MaxInt64, func() {
 		if !nc.readMu.tryLock() {
+			if nc.deadlineReset(&nc.readDeadline) {
+				// The active read started after the deadline was reset.
+				return
+			}
 			// If the lock cannot be acquired, then there is an
 			// active read goroutine and so we should cancel the context.
 			nc.readCancel()
@@ -88,6 +100,10 @@ func NetConn(ctx context.Context, c *Conn, msgType MessageType) net.Conn {
 			return
 		}
 		defer nc.readMu.unlock()
+
+		if nc.deadlineReset(&nc.readDeadline) {
+			return
+		}
 
 		// Prevents future reads from reading until the deadline is reset.
 		atomic.StoreInt64(&nc.readExpired, 1)
@@ -104,6 +120,9 @@ type netConn struct {
 	// https://github.com/nhooyr/websocket/pull/438
 	readExpired  int64
 	writeExpired int64
+	// The current deadlines in unix nanoseconds, 0 if none.
+	readDeadline  int64
+	writeDeadline int64
 
 	c       *Conn
 	msgType MessageType
@@ -214,11 +233,20 @@ func (nc *netConn) SetDeadline(t time.Time) error {
 	return nil
 }
 
+// deadlineReset reports whether the timer fired for a deadline that has
+// been removed or moved into the future since.
+func (nc *netConn) deadlineReset(deadline *int64) bool {
+	dl := atomic.LoadInt64(deadline)
+	return dl == 0 || time.Now().UnixNano() < dl
+}
+
 func (nc *netConn) SetWriteDeadline(t time.Time) error {
 	atomic.StoreInt64(&nc.writeExpired, 0)
 	if t.IsZero() {
+		atomic.StoreInt64(&nc.writeDeadline, 0)
 		nc.writeTimer.Stop()
 	} else {
+		atomic.StoreInt64(&nc.writeDeadline, t.UnixNano())
 		dur := time.Until(t)
 		if dur <= 0 {
 			dur = 1
@@ -231,8 +259,10 @@ func (nc *netConn) SetWriteDeadline(t time.Time) error {
 func (nc *netConn) SetReadDeadline(t time.Time) error {
 	atomic.StoreInt64(&nc.readExpired, 0)
 	if t.IsZero() {
+		atomic.StoreInt64(&nc.readDeadline, 0)
 		nc.readTimer.Stop()
 	} else {
+		atomic.StoreInt64(&nc.readDeadline, t.UnixNano())
 		dur := time.Until(t)
 		if dur <= 0 {
 			dur = 1
